@@ -27,11 +27,13 @@ p = os.path.join(V, "spec", "triggers.json")
 sp = json.load(open(p))
 for k in list(sp["triggers"]):
     if k in inv:
-        g, o = inv[k], sp["triggers"][k]
-        n = dict(o, ids=g["ids"], op=g["op"], consts=g["consts"], text=g["text"])
-        if n != o:
-            print("trigger changed", k)
+        n = {"lits": inv[k]["lits"], "text": inv[k]["text"]}
+        if n != sp["triggers"][k]:
+            print("trigger changed", k, "|", sp["triggers"][k]["text"], "->", n["text"])
         sp["triggers"][k] = n
     else:
         print("TRIGGER GONE", k)
+for k in inv:
+    if k not in sp["triggers"]:
+        print("new call site (not added):", k, inv[k]["text"])
 json.dump(sp, open(p, "w"), indent=1)
